@@ -16,7 +16,7 @@ RULE = ("cases = generated 2D/3D plotfiles (any layout, special payloads, format
         "non-monotone layout at some level")
 ASSUMPTIONS = ["generator/refparse trusted base", "pool shim M1 with shuffled schedules",
                "selections with duplicates or with no present name: only 'raise or taste-valid'"]
-REQUIRED_OBS = {"strained": 100, "unusual_field_names": 4, "cli_runs": 5, "level_dropped": 10, "reordered": 10, "two_digit_to_one_digit": 10}
+REQUIRED_OBS = {"strained": 100, "strained_onto_existing_output": 20, "unusual_field_names": 4, "cli_runs": 5, "level_dropped": 10, "reordered": 10, "two_digit_to_one_digit": 10}
 TIMEOUT = {"quick": 300, "thorough": 1500}
 
 
@@ -111,11 +111,27 @@ def run_case(case, work, rec):
         return
     sels = selections(names, rng, case["nsel"])
     n0 = dict(_calls)
+    prev_out = None
+    nrun = 0
     for si, sel in enumerate(sels):
         for limit in ([None] + list(range(finest + 1)) if si < 4 else [rng.choice([None] + list(range(finest + 1)))]):
             out = os.path.join(work, f"out_{si}_{limit}")
             key = (digest, tuple(sel), limit)
             descr = f"variables={sel} limit_level={limit}"
+            # the requested output may exist already: an empty directory prepared by the caller, or the result
+            # of an earlier strain (another selection / limit) that is being replaced. The tool may refuse;
+            # when it returns normally the requested path holds the plotfile the statement describes.
+            nrun += 1
+            existing = None
+            if nrun % 5 == 2:
+                os.makedirs(out)
+                existing = "an empty directory"
+            elif nrun % 5 == 4 and prev_out and os.path.isdir(prev_out):
+                out = prev_out
+                existing = "the output of an earlier strain"
+            if existing:
+                descr += f" output={existing}"
+                key = key + (existing,)
             use_cli = (si % 4 == 1)
             pools.CTL.reset(mode="inproc", seed=rng.randrange(10 ** 6))
             try:
@@ -133,11 +149,17 @@ def run_case(case, work, rec):
                 present = [v for v in sel if v in names]
                 if not present and sel != ["all"]:
                     rec.ok(key, False)   # nothing to keep: refusing is fine
+                elif existing and isinstance(e, (FileExistsError, IsADirectoryError)):
+                    rec.count("existing_output_refused")
+                    rec.ok(key, False)
                 else:
                     rec.violation(f"straining raised {type(e).__name__}: {descr}", key=key,
                                   witness={"selection": sel, "limit": limit, "exc": repr(e)[:300]})
                 continue
             rec.count("strained")
+            if existing:
+                rec.count("strained_onto_existing_output")
+            prev_out = out
             kept = list(names) if sel == ["all"] else [v for v in sel if v in names]
             if not kept:
                 if os.path.isdir(out) and not taste_ok(out):
